@@ -27,3 +27,13 @@ MANIFEST = {
     "note": "Trusted: Lean kernel + standard axioms; harness/driver glue; tree-sitter (parser is a parameter: trees are dumped and handed to the model). Whether a holed text parses to the same shape is the property's own hypothesis and is measured, not proved.",
     "technique": "Lean 4 proof by structural induction over trees on a fuel-indexed transcription of match_node.rs + differential correspondence on real trees of 23 languages",
 }
+
+
+# slice structural: contextual patterns (`Pattern::contextual`: context + selector)
+ENTRY["lean_modules"] += ["AstGrepVerif.Props.Structural"]
+ENTRY["theorems"] += ["AGV.Structural." + t for t in [
+    "contextual_is_first_of_kind", "contextual_none_iff", "contextualPattern_spec", "contextualNode_single", "contextual_selector_self"]]
+ENTRY["units"] += ["structural"]
+ENTRY["trusted_base"] += [
+    "slice structural — modelled, not verified: Pattern::contextual, Pattern::try_new, single_matcher, is_single_node, convert_node_to_pattern, extract_var_from_node (matcher/pattern.rs), KindMatcher::try_new (kind.rs), find_node (matcher.rs: first hit of dfs(); dfs() = pre-order is C19's pre_eq_preorder); the private root_kind is observed through Pattern::potential_kinds; id_for_node_kind and the set of kinds with an empty name are tables of the grammar handed to the model",
+]
